@@ -99,9 +99,9 @@ def native_replay(ws, g, inputs, outdir):
     srcs = [os.path.join(VERIF, "harness", g.harness)]
     srcs += [ws.source_path(t) for t in g.model if t.startswith("@")]
     srcs += [os.path.join(VERIF, "model", "qsv_native.c")]
-    srcs += [ws.source_path(t) for t in g.tus]
+    srcs += [ws.source_path(t, g.namebuf) for t in g.tus]
     base = ["gcc", "-O0", "-g", "-w", "-fsanitize=address,undefined", "-fno-sanitize-recover=undefined",
-            "-DQSOPT_EX_VERIF"] + ws.inc() + ["-D" + d for d in g.defines]
+            "-DQSOPT_EX_VERIF"] + ws.inc(g.namebuf) + ["-D" + d for d in g.defines]
     tail = ["-Wl,--allow-multiple-definition", "-no-pie", "-o", exe, "-lm"]
     cmd = base + srcs + tail
     try:
@@ -231,6 +231,8 @@ def report(prop, tier, seed, groups, results, wall, ws, verbose=False, partial=F
             nobody.add(nb)
         for a_ in g.assumed:
             assumed.add(a_)
+        for pat, why in g.ignore:
+            assumed.add("%s: obligations matching /%s/ are not counted: %s" % (g.name, pat, why))
         mine = 0
         for ob in r.obligations:
             if P._must_key(ob, set(g.must_fail)):
@@ -251,6 +253,10 @@ def report(prop, tier, seed, groups, results, wall, ws, verbose=False, partial=F
                 if len(samples) < 12 and ("postcondition" in ob.pid or "assert" in ob.pid or "assigns" in ob.pid) and \
                         not any(s["group"] == g.name for s in samples[-2:]):
                     samples.append(ob.as_dict())
+            elif ob.status == "IGNORED-MODEL-LIMITATION":
+                gs["ignored_model_limitation"] = gs.get("ignored_model_limitation", 0) + 1
+                n_obl -= 1
+                gs["obligations"] -= 1
             elif ob.status != "FAILURE":
                 gs["undetermined"] = gs.get("undetermined", 0) + 1
             else:
